@@ -248,8 +248,8 @@ pub fn main(args: &Args) -> i32 {
         let plan = SchedPlan {
             // fixed bounds (not time-driven) so that the quick tier covers the same space on every run
             bounds: match (quick, updates.len()) {
-                (true, 0..=2) => vec![Some(3)],
-                (true, _) => vec![Some(2)],
+                (true, 0..=2) => vec![Some(4)],
+                (true, _) => vec![Some(3)],
                 (false, 0..=2) => vec![None],
                 (false, 3) => vec![Some(4)],
                 (false, _) => vec![Some(3)],
